@@ -1822,21 +1822,26 @@ class Transaction(object):
 
             # Add already known signatures on correct position
             n_sigs_to_insert = len(self.inputs[tid].signatures)
+            sigs_without_key = []
             for sig in self.inputs[tid].signatures:
                 if not sig.public_key:
-                    break
+                    # A signature which came without its key (dict or raw hand-off): find the key it signs for
+                    for key in self.inputs[tid].keys:
+                        if verify(txid, sig, key):
+                            break
+                if not sig.public_key:
+                    sigs_without_key.append(sig)
+                    continue
                 newsig_pos = pub_key_list.index(sig.public_key.public_byte)
                 if sig_domain[newsig_pos] == '':
                     sig_domain[newsig_pos] = sig
                 # A known signature whose place is taken by a new signature of the same key has been replaced
                 n_sigs_to_insert -= 1
-            if n_sigs_to_insert:
-                for sig in self.inputs[tid].signatures:
-                    free_positions = [i for i, s in enumerate(sig_domain) if s == '']
-                    for pos in free_positions:
-                        sig_domain[pos] = sig
-                        n_sigs_to_insert -= 1
-                        break
+            for sig in sigs_without_key:
+                free_positions = [i for i, s in enumerate(sig_domain) if s == '']
+                if free_positions:
+                    sig_domain[free_positions[0]] = sig
+                    n_sigs_to_insert -= 1
             if n_sigs_to_insert:
                 _logger.info("Some signatures are replaced with the signatures of the provided keys")
             self.inputs[tid].signatures = [s for s in sig_domain if s != '']
